@@ -96,4 +96,12 @@ CONF = {
                   "the session manager is built in-package like mockNewSessionManager, with a buffered reload channel; the debouncer is C19's subject",
                   "one prefix with two local preferences on one session is outside the alphabet (validation rejects it); DisableMP on an unnumbered neighbor is outside the alphabet"],
  },
+ "C15": {
+  "level": "translation_validation",
+  "rule": "the C14 session/advertisement catalogues (1..3 neighbors, every creation and Set order, explored map orders) through the real frr-k8s session manager; the FRRConfiguration captured from the config-changed callback is judged by k8sinterp (allowed prefixes sorted/unique == requested, communities and local-prefs associated with exactly the requesting prefixes, router prefixes == union, node selector, session parameters, password xor secret) and compared per neighbor and prefix with frrinterp's meaning of the FRR-mode text for the same sessions; plus every peer credential combination x BGP type x secret handling through the real passwordForSession; programs = resources judged, disagreements_checked = (neighbor, prefix) comparisons with FRR mode",
+  "parts": [{"name": "main", "pkg": "internal/bgp/frrk8s", "test": "TestVerif_C15", "shards": {"quick": 16, "thorough": 16}},
+            {"name": "passwords", "pkg": "speaker", "test": "TestVerif_C15pw", "shards": 1}],
+  "rewrites": {"map": ["internal/bgp/frrk8s/frrk8s.go", "internal/bgp/frr/frr.go"]},
+  "assumptions": ["meaning of an FRRConfiguration as documented by the frr-k8s API (allowed prefixes, prefixesWithCommunity, prefixesWithLocalPref)", "inputs FRR mode refuses (one prefix with two local-prefs on one session) are outside the alphabet"],
+ },
 }
